@@ -96,4 +96,23 @@ MonSilent(m, n, idle, cb) ==
 \*  minus the listed exceptions when process-unmapped-keys is on)"
 Intercept(q, known) ==
   SeqToSet(q.defsrc) \cup SeqToSet(q.lmap) \cup (IF q.pu THEN known \ SeqToSet(q.exc) ELSE {})
+
+\* ---- part 3: the intercept set across live reloads ------------------------------------
+\* "the set of keys kanata intercepts is exactly ..." of the configuration IN FORCE: the start-up configuration until a
+\* live reload really replaces the layout (ground truth observed on the code: repl), from then on the content the
+\* file had at that moment; a reload that is abandoned (the file does not parse, or a later step of the reload
+\* fails) leaves the set alone.
+\*   qs   : record  content kind |-> q  for the contents that parse (q as for Intercept)
+\*   obs  : Seq([i, mk, repl, file]): after step i the code intercepts the codes mk; file = content kind of the file
+\* Result: <<>> or one record describing the first observation that differs.
+RECURSIVE ReloadScan(_, _, _, _, _, _)
+ReloadScan(qs, known, pseudo, obs, k, cur) ==
+  IF k > Len(obs) THEN <<>>
+  ELSE LET o == obs[k]
+           c == IF o.repl /\ o.file \in DOMAIN qs THEN o.file ELSE cur
+           real == SeqToSet(o.mk) \ pseudo
+           spec == Intercept(qs[c], known) \ pseudo
+       IN IF real = spec THEN ReloadScan(qs, known, pseudo, obs, k + 1, c)
+          ELSE <<[i |-> o.i, inforce |-> c, file |-> o.file, repl |-> o.repl, missing |-> spec \ real, extra |-> real \ spec]>>
+ReloadBad(qs, known, pseudo, start, obs) == ReloadScan(qs, known, pseudo, obs, 1, start)
 =============================================================================
